@@ -10,8 +10,8 @@ from driver import Bounded, Property, Task
 
 ROUND = Bounded(
     "generated_messages_round_trip", "codec_fuzz",
-    {"mode": "c01", "messages": 4000}, {"mode": "c01", "messages": 100000},
-    "4000 (thorough 100000) generated messages through the real encode -> decode: every FMsg type and 3 custom types, "
+    {"mode": "c01", "messages": 4000}, {"mode": "c01", "messages": 1200000},
+    "4000 (thorough 1200000) generated messages through the real encode -> decode: every FMsg type and 3 custom types, "
     "0-6 body tags out of 17 (standard, user-defined, 5-digit) in random order, values from printable single-byte text "
     "incl. '=', '10=000', '9=5', '8=FIX.4.4', '35=D', latin-1 letters; 0-2 repeating groups out of the groups of the FIX 4.4 "
     "table that are not nested in another one, 1-3 items, optional members present or absent in table order, nested "
